@@ -12,7 +12,8 @@ package main
 //
 // <declared>: what the leaf authority says about the client subnet: "S<bits>" echoes
 // family / source netmask / address of the subnet option it was SENT with SCOPE <bits>
-// (nothing when the query carried none), "E…" attaches that fixed option whatever it
+// (nothing when the query carried none), "T<bits>" echoes family and address but sets SOURCE
+// and SCOPE both to <bits>, "E…" attaches that fixed option whatever it
 // was sent (a misbehaving authority), "-" attaches nothing.
 
 import (
@@ -120,6 +121,11 @@ func l3New(f []string) vlib.Res {
 				case strings.HasPrefix(s.decl, "S") && sent != nil:
 					_, a := normAddr(sent.Address)
 					d = &optT{isECS: true, fam: sent.Family, mask: sent.SourceNetmask, scope: uint8(vlib.Atoi(s.decl[1:])), addr: a}
+				case strings.HasPrefix(s.decl, "T") && sent != nil:
+					// family and address echoed, but SOURCE rewritten to the scope (a common deviation from RFC 7871 7.3)
+					_, a := normAddr(sent.Address)
+					b := uint8(vlib.Atoi(s.decl[1:]))
+					d = &optT{isECS: true, fam: sent.Family, mask: b, scope: b, addr: a}
 				case strings.HasPrefix(s.decl, "E"):
 					o := parseOpt(s.decl)
 					d = &o
